@@ -183,10 +183,26 @@ Theorem world_reattach : forall w o,
 Proof. exact world_reattach_lemma. Qed.
 Print Assumptions world_reattach.
 
-Theorem world_static : forall w x, world_can_id (wstep w (WSetStatic x)) = u32 x.
+Theorem world_static : forall w x,
+  accepted w (WSetStatic x) = true -> world_can_id (wstep w (WSetStatic x)) = u32 x.
 Proof. exact world_static_lemma. Qed.
 Print Assumptions world_static.
 
 Theorem world_frame : forall w o, frame_op o -> world_can_id (wstep w o) = world_can_id w.
 Proof. exact world_frame_lemma. Qed.
 Print Assumptions world_frame.
+
+(* refused attach attempts change nothing: the CAN-ID stays the plain message id *)
+Theorem world_refused_attach : forall w o,
+  (o = WBusAdd \/ o = WAttach) -> accepted w o = false ->
+  w_has_static w = false -> w_attached w && w_on_bus w = false ->
+  world_can_id (wstep w o) = w_id w.
+Proof. exact world_refused_attach_lemma. Qed.
+Print Assumptions world_refused_attach.
+
+Theorem bus_add_refused : forall w,
+  w_big w = true \/ (w_on_bus2 w = true /\ w_node_id w = w_node2_id w) \/ w_on_bus w = true
+  \/ (w_attached w = true /\ w_has_static w = true /\ w_on_bus2 w = true /\ w_static2 w = Some (w_static w)) ->
+  accepted w WBusAdd = false.
+Proof. exact bus_add_refused_lemma. Qed.
+Print Assumptions bus_add_refused.
